@@ -65,7 +65,7 @@ CHECKS = {
         note=BASE_TB + RT + "Model/Capa.v is hand-written. The penalty callables/assigned penalties are inputs (C15 covers their formulas). The optimality theorems are closed; the three saving lemmas are over R.",
         ref="DESIGN.md section 4 / C03"),
     "C07": dict(
-        technique="Coq proof (greedy-loop invariants, interval arithmetic; unbounded n) + Coq proof that the specification holds for ANY strict weak order on the scores, in particular binary64 without NaN (order embedding into the Z model; PrimFloat.ltb proved a strict weak order) + model-vs-code correspondence with direct spec checkers on integer tables and bit-exact on binary64 tables",
+        technique="Coq proof (greedy-loop invariants, interval arithmetic; unbounded n) + Coq proof that the specification holds for ANY strict weak order on the scores, in particular binary64 without NaN (order embedding into the Z model; PrimFloat.ltb proved a strict weak order) + model-vs-code correspondence with direct spec checkers on integer tables and bit-exact on binary64 tables; via Flocq, soundness and completeness up to the proved CUSUM rounding error for the binary64 run from float data (one column), premises evaluated on every from-data case",
         text="Theorems in coq/Properties/C07.v: candidate intervals inside [0,n] with lengths in [2m, min(max,n)] and non-empty (given the float front-end oracle's "
              "postconditions); per-interval score/maximiser = max/first argmax over admissible splits; every changepoint supported by an above-threshold interval "
              "containing it; no above-threshold interval left without a changepoint; changepoints >= m apart and from the ends; raising the threshold only removes "
@@ -75,7 +75,7 @@ CHECKS = {
              "with the library's NumPy expressions (validated on every configuration, not proved). No axioms; PrimFloat (binary64) in the float-table checker only.",
         ref="DESIGN.md section 4 / C07"),
     "C08": dict(
-        technique="Coq proof (run/peak characterisation by induction over the score list) + Coq proof that the specification holds for ANY strict weak order on the scores, in particular binary64 without NaN (order embedding into the Z model; PrimFloat.ltb proved a strict weak order) + model-vs-code correspondence on integer tables and bit-exact on binary64 tables",
+        technique="Coq proof (run/peak characterisation by induction over the score list) + Coq proof that the specification holds for ANY strict weak order on the scores, in particular binary64 without NaN (order embedding into the Z model; PrimFloat.ltb proved a strict weak order) + model-vs-code correspondence on integer tables and bit-exact on binary64 tables; via Flocq, soundness and completeness up to the proved CUSUM rounding error for the binary64 run from float data (one column), premises evaluated on every from-data case",
         text="Theorems in coq/Properties/C08.v: score at t = change score of (t-b, t, t+b) on [b, n-b], 0 elsewhere; `where` = exactly the maximal runs; changepoints = "
              "first maxima of maximal above-threshold runs of length >= min_detection_interval; sorted; in [b, n-b] for thr >= 0; time reversal maps scores at t to n-t; "
              "refutation of the pinned one-short left window. Tie: exact equality of transform_scores / predict with the real MovingWindow on integer change scores and "
